@@ -78,6 +78,16 @@ namespace BitSerializer
 			}
 		}
 
+		/// <summary>
+		/// Re-throws the deferred exception (if any), it is used when another error is raised after it.
+		/// </summary>
+		void RethrowDeferredException()
+		{
+			if (mDeferredException) {
+				std::rethrow_exception(std::exchange(mDeferredException, nullptr));
+			}
+		}
+
 		void OnFinishSerialization()
 		{
 			if (mDeferredException) {
